@@ -423,6 +423,10 @@ func genG(t *rapid.T, p *pools, o DumpOpts, id int) GM {
 	default:
 		c := *rapid.SampledFrom(p.creators).Draw(t, "creator")
 		g.Creator = &c
+		// the same go statement run by another parent: only " in goroutine N" differs
+		if c.Parent != 0 && oneIn(t, 4, "otherParent") {
+			g.Creator.Parent = c.Parent%5000 + rapid.IntRange(1, 3).Draw(t, "parentDelta")
+		}
 	}
 	return g
 }
